@@ -132,6 +132,8 @@ def sign_sequence(W, ev, signer_path, live=None):
             continue
         p = strip_generics(callee)
         if argi == 0 and p.startswith(SIGNER + "::"):
+            if not fn.blocks[b].term["arg_tys"][0].startswith("&mut"):
+                continue        # `&self` methods (public_key_bytes, Display) do not touch the signing buffer
             args = ev.call_args(b)
             nm = p.split("::")[-1]
             if nm == "update" and len(args) > 1:
